@@ -67,6 +67,8 @@ struct DState {
     /// the sink's own protocol check: most recent poll_ready was Ready and no send since
     armed: bool,
     unreadied_sends: u64,
+    /// unreadied sends that were the very first call on this sink (a lazily created sink, finding F5)
+    unreadied_first: u64,
     pendings: u64,
 }
 #[derive(Clone, Default)]
@@ -118,7 +120,11 @@ impl Sink<u64> for DSink {
     fn start_send(self: Pin<&mut Self>, item: u64) -> Result<(), ()> {
         let mut d = self.0.borrow_mut();
         if !d.armed {
-            d.unreadied_sends += 1;
+            if d.trace.is_empty() {
+                d.unreadied_first += 1;
+            } else {
+                d.unreadied_sends += 1;
+            }
         }
         d.armed = false;
         d.trace.push(Ev::Send(item));
@@ -262,6 +268,7 @@ struct Run {
     /// the source half was polled since the client's last `poll_ready` (LazySinkSource only)
     next_since_ready: bool,
     unreadied_seen: u64,
+    unreadied_first_seen: u64,
     /// the init future has completed
     fut_done: Rc<Cell<bool>>,
 }
@@ -417,6 +424,7 @@ fn make(kind: &str, args: &[&str]) -> Option<Run> {
         drive_done: false,
         next_since_ready: false,
         unreadied_seen: 0,
+        unreadied_first_seen: 0,
         fut_done,
     })
 }
@@ -471,12 +479,17 @@ impl Run {
         // buffering adaptor: only meaningful while the client itself respected the protocol
         if !self.client_violated {
             let mut bad = 0;
+            let mut bad_first = 0;
             for (_, d) in &self.ds {
                 bad += d.0.borrow().unreadied_sends;
+                bad_first += d.0.borrow().unreadied_first;
             }
             let suffix = if self.next_since_ready { "-after-source-poll" } else { "" };
             rec.check(bad == self.unreadied_seen, &format!("unreadied-start-send{suffix}@{kind}"), &format!("start_send reached a downstream sink without a preceding Ready poll_ready (op {op})"));
             self.unreadied_seen = bad;
+            // the very first call on a sink is a start_send: only a lazily created sink can see that (F5)
+            rec.check(bad_first == self.unreadied_first_seen, &format!("unreadied-first-start-send-to-fresh-sink{suffix}@{kind}"), &format!("a sink's first call was start_send, no poll_ready before it (op {op})"));
+            self.unreadied_first_seen = bad_first;
             // (2) order / exactly once: what arrived is a prefix of what must arrive
             let all: Vec<u64> = self.sent.clone();
             for (name, d) in &self.ds {
